@@ -151,11 +151,15 @@ fn content_formats(rep: &mut Report, r: &mut Rng) {
             Ok((Some(got), raw, true)) if got == *cf && raw == vec![min_be(*id as u64)] => rep.count("content_format_set_twice"),
             other => rep.violation("content-format-set-twice", format!("set {:?} then {:?}: (getter, raw Content-Format values, wire ok) = {:?}", prev, cf, other.map_err(|p| p.text())), format!("{:?} then {:?}", prev, cf)),
         }
-        // 3: set after a raw add
+        // 3: set after raw adds (one, or several values already there)
         rep.eval();
         let res = guard(|| {
             let mut p = Packet::new();
             p.add_option(CoapOption::ContentFormat, min_be(prev_id as u64));
+            if *id % 2 == 0 {
+                p.add_option(CoapOption::ContentFormat, vec![42]);
+                p.add_option(CoapOption::ContentFormat, vec![]);
+            }
             p.set_content_format(*cf);
             (p.get_content_format(), cf_raw(&p))
         });
@@ -207,6 +211,8 @@ fn observe_flags(rep: &mut Report, level: u32) {
                     q.set_observe_flag(p);
                 } else {
                     q.message.add_option(CoapOption::Observe, vec![0x12, 0x34]);
+                    q.message.add_option(CoapOption::Observe, vec![1]);
+                    q.message.add_option(CoapOption::Observe, vec![]);
                 }
                 q.set_observe_flag(flag);
                 let raw: Vec<Vec<u8>> = q.message.get_option(CoapOption::Observe).map(|l| l.iter().cloned().collect()).unwrap_or_default();
@@ -407,6 +413,9 @@ fn trait_views(rep: &mut Report, r: &mut Rng, budget: u64, level: u32) {
             view[newlen - 1] = 0x77;
             <Packet as MutableWritableMessage>::truncate(&mut q3, newlen - 1);
             let trunc_ok = q3.payload.len() == newlen - 1 && q3.payload[..payload.len()] == payload[..];
+            // payload_mut is a view of the same bytes; space is unbounded
+            let pm_ok = <Packet as MutableWritableMessage>::payload_mut(&mut q3).len() == newlen - 1 && <Packet as MutableWritableMessage>::available_space(&q3) == usize::MAX;
+            let trunc_ok = trunc_ok && pm_ok;
             let mut seen: Vec<(u16, Vec<u8>)> = Vec::new();
             <Packet as MutableWritableMessage>::mutate_options(&mut q3, |n, v| {
                 seen.push((u16::from(n), v.to_vec()));
@@ -467,7 +476,7 @@ fn trait_views(rep: &mut Report, r: &mut Rng, budget: u64, level: u32) {
             let view = <Packet as MutableWritableMessage>::payload_mut_with_len(&mut q3, newlen).unwrap();
             let view_ok = view.len() == newlen && view[..payload.len()] == payload[..] && view[payload.len()..].iter().all(|b| *b == 0);
             <Packet as MutableWritableMessage>::truncate(&mut q3, payload.len() / 2).unwrap();
-            let trunc_ok = q3.payload[..] == payload[..payload.len() / 2];
+            let trunc_ok = q3.payload[..] == payload[..payload.len() / 2] && <Packet as MutableWritableMessage>::available_space(&q3) == usize::MAX;
             let mut seen: Vec<(u16, Vec<u8>)> = Vec::new();
             <Packet as MutableWritableMessage>::mutate_options(&mut q3, |n, v| {
                 seen.push((u16::from(n), v.to_vec()));
